@@ -67,6 +67,45 @@ def dep_closed_subset(types, r):
     return [t for k, t in chosen.items() if k in local]
 
 
+ROLE_SET = {
+    # one spelling in several roles (nested namespace / attribute / type), spellings that only some identifier kinds reserve
+    # (C: function, typedef and macro patterns; keywords), so that whatever is stropped first could decide for the others
+    "roleq/torque/Inner.1.0.dsdl": "uint8 a\n@sealed\n",
+    "roleq/Motor.1.0.dsdl": "float32 torque\nuint8 string\nuint8 total\nuint8 TIME_A\n@sealed\n",
+    "roleq/string/S.1.0.dsdl": "uint8 island\nuint8 int8_t\n@sealed\n",
+    "roleq/User.1.0.dsdl": "roleq.torque.Inner.1.0 string\nroleq.string.S.1.0 torque\nuint8 atomic_x\n@sealed\n",
+    "roleq/island/memory/Deep.1.0.dsdl": "uint8 total\nuint8 register\n@extent 64\n",
+    "roleq/Island.1.0.dsdl": "uint8 island\nuint8 memory\nuint8 Island\n@sealed\n",
+    "roleq/atomic_x/TIME_A.1.0.dsdl": "uint8 mtx_q\nuint8 roleq\n@sealed\n",
+    "roleq/register/Total.1.0.dsdl": "roleq.Motor.1.0 motor\nuint8 atomic_x\n@sealed\n",
+    "roleq/Svc.1.0.dsdl": "uint8 torque\nroleq.Island.1.0 memory\n@sealed\n---\nuint8 string\nuint8 register\n@sealed\n",
+    "roleq/Torque.1.0.dsdl": "@union\nuint8 torque\nroleq.Motor.1.0 string\nuint16 E2BIG\n@sealed\n",
+}
+
+
+def write_role_set(dsdl_dir):
+    for rel, text in ROLE_SET.items():
+        os.makedirs(os.path.dirname(os.path.join(dsdl_dir, rel)), exist_ok=True)
+        with open(os.path.join(dsdl_dir, rel), "w") as f:
+            f.write(text)
+    roots = ["roleq"]
+    return roots, dsdlgen.read_all(dsdl_dir, roots), 0
+
+
+def closure_of(t, types):
+    chosen = {}
+
+    def add(x):
+        k = genrun.type_key(x)
+        if k not in chosen:
+            chosen[k] = x
+            for dt in dsdlgen.composite_deps(x):
+                add(dt)
+    add(t)
+    local = {genrun.type_key(x) for x in types}
+    return [x for k, x in chosen.items() if k in local]
+
+
 class Probes:
     """State probes (evidence only): how often the process-global state was touched, and what it held."""
 
@@ -98,10 +137,13 @@ class Probes:
 
 
 def one_set(ctx, idx, probes):
-    R = random.Random("c10/%s/%d" % (ctx.seed, idx))
-    d = os.path.join(ctx.scratch, "s%d" % idx)
-    profile = "codec" if idx % 4 == 0 else "hostile"
-    roots, parsed, _ = dsdlgen.make_set(os.path.join(d, "dsdl"), "c10/%s/%d" % (ctx.seed, idx), profile, nroots=2, docs=True)
+    R = random.Random("c10/%s/%s" % (ctx.seed, idx))
+    d = os.path.join(ctx.scratch, "s%s" % idx)
+    if idx == "roles":
+        roots, parsed, _ = write_role_set(os.path.join(d, "dsdl"))
+    else:
+        profile = "codec" if idx % 4 == 0 else "hostile"
+        roots, parsed, _ = dsdlgen.make_set(os.path.join(d, "dsdl"), "c10/%s/%d" % (ctx.seed, idx), profile, nroots=2, docs=True)
     from nunavut._postprocessors import LimitEmptyLines, TrimTrailingWhitespace
     import copy
     pristine_by_key = {genrun.type_key(t): t for ts in copy.deepcopy(parsed).values() for t in ts}
@@ -148,6 +190,15 @@ def one_set(ctx, idx, probes):
                 continue
             ctx.count("base_runs")
             variants = []
+            if idx == "roles" and not tdir:
+                # exhaustive for the fixed set: every type generated with nothing but its own dependency closure, in both orders
+                for t in types:
+                    try:
+                        sub = closure_of(t, types)
+                        variants.append(("closed", run(sub)))
+                        variants.append(("closed", run(list(reversed(sub)))))
+                    except Exception as e:
+                        ctx.refute(None, "variant closed failed: %r" % e, dict(set=idx, root=root, lang=lang))
             for v in range(nvar):
                 kind = R.choice(["perm", "subset", "closed", "again", "after_other", "after_config", "config_vs_fresh"])
                 if kind == "config_vs_fresh" and (lang == "html" or tdir):
@@ -257,7 +308,7 @@ def _dsdl_text(root_dir, rel):
 
 def cli_whole_vs_subset(ctx, roots, parsed, d, idx):
     """Through the CLI: a pruned copy of the root namespace (dependency-closed) must give the same bytes for shared types."""
-    R = random.Random("c10cli/%s/%d" % (ctx.seed, idx))
+    R = random.Random("c10cli/%s/%s" % (ctx.seed, idx))
     root = roots[0]
     types = parsed[root]
     if len(types) < 2:
@@ -319,7 +370,7 @@ def run(ctx):
                 "language/namespace, after other configuration}); distinct = distinct per-type files whose bytes were compared and agreed")
     probes = Probes(ctx)
     nsets = ctx.pick(4, 40)
-    for i in range(nsets):
+    for i in ["roles"] + list(range(nsets)):
         roots, parsed, d = one_set(ctx, i, probes)
         cli_whole_vs_subset(ctx, roots, parsed, d, i)
         shutil.rmtree(d, ignore_errors=True)
